@@ -156,7 +156,7 @@ PROFILES.update({
     "stop": {"cmds": ["stop", "stop", "rm", "kill", "restart", "start", "incr", "decr", "set_np", "set_opt", "set_opt", "status"], "stubborn": 0.5,
              "kcall_deaths": 0.6, "hooks": ["after_spawn", "before_stop", "after_stop"], "norespawn": True,
              "stop_children": True, "fork": 0.35, "patterns": 0.35, "watchers": 3},
-    "term": {"max_age": 0.3, "killover": 0.6, "Gs": [0.0, 0.2, 0.3, 0.5, 0.8, 0.05, 0.25, 0.45, 0.95], "stop_children": True, "stop_signal": True, "fork": 0.15, "stubborn": 0.5,
+    "term": {"max_age": 0.3, "killover": 0.6, "Gs": [0.0, 0.2, 0.3, 0.5, 0.8, 0.05, 0.25, 0.45, 0.95], "stop_children": True, "stop_signal": True, "fork": 0.3, "childsel": 0.5, "stubborn": 0.5,
              "cmds": ["stop", "kill", "decr", "restart", "reload", "signal"], "instant": 0.2},
     "acct": {"watchers": 3, "badnb": 0.05, "hooks": ["before_spawn", "after_spawn", "before_start", "after_start", "before_reap", "after_reap"], "faults": 0.3,
              "kcall_deaths": 0.6, "die_untracked": 0.3,
@@ -483,6 +483,15 @@ def term_profile(seed):
     if sch:
         for _ in range(rng.randint(1, 2)):
             s.append({"op": "fork", "sel": ["w1", rng.randint(0, 1)], "obeys": rng.random() < 0.5})
+        if rng.random() < 0.6:
+            # the children of a worker change over time: one is addressed by a request, others are born afterwards;
+            # a termination reaches the children the worker has THEN
+            k = rng.randint(0, 1)
+            s.append({"op": "req", "cmd": "signal", "props": {"name": "w1", "pidsel": k, "childsel": 0,
+                                                              "signum": rng.choice([0, int(scenario._signal.SIGWINCH), "chld"])}})
+            s.append({"op": "tick", "n": rng.randint(0, 2)})
+            for _ in range(rng.randint(1, 2)):
+                s.append({"op": "fork", "sel": ["w1", k], "obeys": rng.random() < 0.5})
     for _ in range(rng.randint(1, 3)):
         c = rng.choice(["kill", "kill", "kill", "stop", "decr", "restart", "reload_seq"])
         if c == "kill":
